@@ -354,6 +354,54 @@ fn c01(ctx: &Ctx, col: &mut Collector, extra: &mut serde_json::Value) {
     col.merge(corpus_mutations(ctx, ctx.q(200, 5000)));
     // (e) pairing and tracker on everything that decodes
     col.merge(c01_ops(ctx));
+    // (f) long flights: thousands of accepted position reports of one aircraft (growing track)
+    let c = par_units(ctx, "c01-marathon", ctx.q(3, 24), |_, r, col, slot| {
+        let h = crate::trk::gen_marathon(r);
+        let mut planes = rsadsb_common::Airplanes::new();
+        slot.begin(|| "tracker marathon".to_string());
+        for (k, op) in h.ops.iter().enumerate() {
+            if let crate::trk::Op::Frame(m) = op {
+                if let Ok(Ok(f)) = mon::guarded(|| adsb_deku::Frame::from_bytes(m)) {
+                    col.count("tracker_actions", 1);
+                    col.count("extra_evaluations", 1);
+                    if let Err((loc, msg)) = mon::guarded(|| {
+                        let _ = planes.action(f, h.receiver, h.max_range);
+                    }) {
+                        col.add(fnd("C01", "panic_tracker_action", &loc, format!("{msg} at position report #{k} of one aircraft"), crate::trk::history_json(&h)));
+                        break;
+                    }
+                }
+            }
+        }
+        if let Err((loc, msg)) = mon::guarded(|| {
+            let _ = planes.to_string();
+            let _ = planes.all_position();
+        }) {
+            col.add(fnd("C01", "panic_tracker_views", &loc, msg, json!({"history": "marathon"})));
+        }
+        slot.end();
+    });
+    col.merge(c);
+    // (g) identification payloads made of one repeated character (eight spaces, eight '#', ...)
+    let c = par_units(ctx, "c01-ident", 64, |i, r, col, _| {
+        for carrier in 0..4u64 {
+            for lead in 0..=8usize {
+                // `lead` characters of code i followed by letters, and the reverse
+                for rev in [false, true] {
+                    let mut chars = [1u8 + (i as u8 % 26); 8];
+                    for (k, c) in chars.iter_mut().enumerate() {
+                        let inside = if rev { k >= 8 - lead } else { k < lead };
+                        if inside {
+                            *c = i as u8;
+                        }
+                    }
+                    let m = ident_frame(r, &chars, carrier);
+                    obs::judge(&ctx.g, col, &m);
+                }
+            }
+        }
+    });
+    col.merge(c);
     *extra = json!({"operations": ["from_bytes", "Debug", "Display", "calculate", "get_position(all ordered pairs of a rolling pool)", "Airplanes::action/prune/aircraft_details/all_position/Display"]});
 }
 
@@ -1093,6 +1141,23 @@ fn c08(ctx: &Ctx, col: &mut Collector, extra: &mut serde_json::Value) {
             let carrier = r.below(4);
             let m = ident_frame(r, &chars, carrier);
             obs::judge(&ctx.g, col, &m);
+        }
+    });
+    col.merge(c);
+    // runs of one character (leading / trailing / all eight): all spaces, all '#', ...
+    let c = par_units(ctx, "c08-runs", 64, |i, r, col, _| {
+        for carrier in 0..4u64 {
+            for lead in 0..=8usize {
+                for rev in [false, true] {
+                    let mut chars = [0u8; 8];
+                    for (k, c) in chars.iter_mut().enumerate() {
+                        let inside = if rev { k >= 8 - lead } else { k < lead };
+                        *c = if inside { i as u8 } else { 1 + r.below(26) as u8 };
+                    }
+                    let m = ident_frame(r, &chars, carrier);
+                    obs::judge(&ctx.g, col, &m);
+                }
+            }
         }
     });
     col.merge(c);
